@@ -191,13 +191,6 @@ package oras
 //@   ensures forall o any, k descriptor.Descriptor :: old(present(o, k)) ==> present(o, k)
 //@   modifies ghost.present, ghost.pushes, ghost.lastPush, ghost.closedRC, ghost.readerOver, alloc, elems[any], elems[string]
 //@
-//@ func syncutil.Go
-//@   trusted
-//@   ensures forall o any, k descriptor.Descriptor :: old(present(o, k)) ==> present(o, k)
-//@   ensures forall m *sync.Map, k any :: old(syncHas(m, k)) ==> syncHas(m, k) && syncVal(m, k) == old(syncVal(m, k))
-//@   ensures forall t *status.Tracker :: old(trackerRI(t)) ==> trackerRI(t)
-//@   modifies ghost.present, ghost.pushes, ghost.lastPush, ghost.closedRC, ghost.readerOver, ghost.syncHas, ghost.syncVal, ghost.syncVersion, ghost.acquired, alloc, elems[any], elems[string], elems[byte], elems[ocispec.Descriptor]
-//@
 //@ ghost local cgCopies int
 //@ ghost local cgFailed bool
 //@ func copyGraph$1
@@ -223,6 +216,8 @@ package oras
 //@   call Go requires [C02,C04:permit-released-before-dispatch] region == nil || region.ended
 //@   call Go requires [C01:dispatch-all-successors] args.items == successors
 //@   call Go set cgFailed = cgFailed || result != nil
+//@   call Go assume (forall o any, k descriptor.Descriptor :: old(present(o, k)) ==> present(o, k)) && (forall m *sync.Map, k any :: old(syncHas(m, k)) ==> syncHas(m, k) && syncVal(m, k) == old(syncVal(m, k))) && (forall t *status.Tracker :: old(trackerRI(t)) ==> trackerRI(t))
+//@   call Go assume tracker == old(tracker) && proxy == old(proxy) && proxy.Cache == old(proxy.Cache) && (region == nil || (region.ended == old(region.ended) && region.limiter == old(region.limiter))) && alive(tracker) && alive(proxy) && err == old(err)
 //@   call Start set cgFailed = cgFailed || result != nil
 //@   call close requires [C01,C02:close-only-on-success] err == nil && settled(dst, desc) && args.arg0 == doneChan(tracker, desc)
 //@   ensures [C02:error-surfaces] cgFailed ==> err != nil
